@@ -86,3 +86,27 @@ Proof.
   - exfalso. exact (pipeline_no_panic rel toks ctx rootid Hs E).
   - exfalso. destruct (pipeline_terminates rel toks ctx rootid Hs E) as (d & c & Hd). exact (Ho d c Hd).
 Qed.
+
+(* ---- loader ; pipeline ---- *)
+From PV Require Import Model.Full.
+From PV Require Model.Loader Proofs.Loader.
+
+Theorem full_no_panic rel toks p :
+  (forall c root, Loader.load p = Loader.Loaded c root -> small_pages rel toks (objs_of c) root) ->
+  full rel toks p <> PPanicked.
+Proof.
+  intros Hs. unfold full. destruct (Loader.load p) as [| |c root] eqn:E; try discriminate.
+  apply pipeline_no_panic. apply Hs. reflexivity.
+Qed.
+
+Theorem full_two_outcomes rel toks p :
+  (forall c root, Loader.load p = Loader.Loaded c root -> small_pages rel toks (objs_of c) root) ->
+  (forall d c, dec rel toks d c <> Fuel) ->
+  full rel toks p = PAccepted \/ full rel toks p = PRejected.
+Proof.
+  intros Hs Ho. unfold full. pose proof (Proofs.Loader.load_total p) as (NF & _).
+  destruct (Loader.load p) as [| |c root] eqn:E.
+  - right. reflexivity.
+  - contradiction.
+  - apply pipeline_two_outcomes; [apply Hs; reflexivity | exact Ho].
+Qed.
